@@ -5,6 +5,7 @@ import (
 	"go/ast"
 	"go/token"
 	"go/types"
+	"strings"
 
 	"golang.org/x/tools/go/cfg"
 )
@@ -78,6 +79,7 @@ type skipSpec struct {
 // out of the function passes through a node satisfying target, except
 //   - paths through an allowed skip edge,
 //   - returns that carry a non-nil error when errExitOK is set.
+//
 // It returns inspected sites and a violation message.
 func (w *World) eachIteration(fi *FuncInfo, g *cfg.CFG, r *ast.RangeStmt, target func(ast.Node) bool, skips []skipSpec, errExitOK bool) ([]string, string) {
 	var body, loop, done *cfg.Block
@@ -263,6 +265,97 @@ func (w *World) appendTo(fi *FuncInfo, dst func(ast.Expr) bool) func(ast.Node) b
 			return false
 		}
 		return dst(as.Lhs[0])
+	}
+}
+
+// resultSlice: an identifier of a slice-typed local of fi that leaves the function - a
+// return statement, a composite literal, the right-hand side of an assignment to something
+// else, or an argument of a non-builtin call mentions it - or is a named result: the
+// function's accumulator, whatever it is called.
+func (w *World) resultSlice(fi *FuncInfo) func(ast.Expr) bool {
+	info := fi.Pkg.TypesInfo
+	acc := map[types.Object]bool{}
+	if fi.Decl.Type.Results != nil {
+		for _, f := range fi.Decl.Type.Results.List {
+			for _, n := range f.Names {
+				if o := info.Defs[n]; o != nil {
+					acc[o] = true
+				}
+			}
+		}
+	}
+	mark := func(e ast.Node, except types.Object) {
+		ast.Inspect(e, func(m ast.Node) bool {
+			if id, ok := m.(*ast.Ident); ok {
+				if o, isVar := info.Uses[id].(*types.Var); isVar && !o.IsField() && o != except && o.Pos() > fi.Decl.Pos() && o.Pos() < fi.Decl.End() {
+					acc[o] = true
+				}
+			}
+			return true
+		})
+	}
+	if fi.Decl.Body != nil {
+		ast.Inspect(fi.Decl.Body, func(n ast.Node) bool {
+			switch x := n.(type) {
+			case *ast.ReturnStmt:
+				for _, res := range x.Results {
+					mark(res, nil)
+				}
+			case *ast.CompositeLit:
+				mark(x, nil)
+			case *ast.AssignStmt:
+				for i, rhs := range x.Rhs {
+					if cl, ok := rhs.(*ast.CallExpr); ok && calleeOfCall(info, cl) == "builtin.append" {
+						continue // x = append(x, …) is the accumulation itself
+					}
+					var self types.Object
+					if i < len(x.Lhs) {
+						if id, ok := x.Lhs[i].(*ast.Ident); ok {
+							self = info.ObjectOf(id)
+						}
+					}
+					mark(rhs, self)
+				}
+			case *ast.CallExpr:
+				if callee := calleeOfCall(info, x); !strings.HasPrefix(callee, "builtin.") {
+					for _, a := range x.Args {
+						if id, ok := a.(*ast.Ident); ok {
+							mark(id, nil)
+						}
+					}
+				}
+			}
+			return true
+		})
+	}
+	return func(e ast.Expr) bool {
+		id, ok := e.(*ast.Ident)
+		if !ok {
+			return false
+		}
+		o := info.ObjectOf(id)
+		if o == nil || !acc[o] {
+			return false
+		}
+		_, isSlice := o.Type().Underlying().(*types.Slice)
+		return isSlice
+	}
+}
+
+// paramOfType: an identifier naming a parameter of fi whose type prints as typeStr.
+func (w *World) paramOfType(fi *FuncInfo, typeStr string) func(ast.Expr) bool {
+	info := fi.Pkg.TypesInfo
+	params := map[types.Object]bool{}
+	for _, f := range fi.Decl.Type.Params.List {
+		for _, n := range f.Names {
+			if o := info.Defs[n]; o != nil && short(types.TypeString(o.Type(), nil)) == typeStr {
+				params[o] = true
+			}
+		}
+	}
+	return func(e ast.Expr) bool {
+		id, ok := e.(*ast.Ident)
+		return ok && params[info.ObjectOf(id)]
 	}
 }
 
